@@ -315,7 +315,9 @@ distinct = distinct (accessor, d, t-class); oracle = harness integer calendar: e
             let c1 = *rng.pick(&[2u8, 3, 13, 18]);
             let mut h1 = MsgHeader::realistic(&mut rng, c1);
             h1.date = rng.range(2, 40_000) as u16;
-            h1.time = 1 + rng.below(86_399_999) as u32;
+            // (one first message in four carries a time field that is no time of day: its own accessor
+            // only has to return, and the message after it is stamped as exactly as ever)
+            h1.time = if rng.chance(1, 4) { *rng.pick(&[86_400_000u32, 86_400_001, 1 << 31, u32::MAX]) } else { 1 + rng.below(86_399_999) as u32 };
             let c2 = *rng.pick(&[3u8, 13, 18, 2]);
             let mut h2 = MsgHeader::realistic(&mut rng, c2);
             h2.date = d;
